@@ -10,7 +10,7 @@ from .. import pb
 
 ID = "C14"
 ORACLE = "Oracle.C14"
-PROPS = ["Props/C14.v", "Props/C14mes.v"]
+PROPS = ["Props/C14.v", "Props/C14mes.v", "Props/C14gen.v"]
 LEVEL = "proof"
 SHARD = 4
 
